@@ -15,6 +15,10 @@ Oracle (independent of the model), on law-abiding chunkings of disjoint rows and
 window (per-row; grouping / pairing with gap <= min(look-back, look-ahead)): concatenated output == one `compute` over
 the whole run; output chunks tile the run; the chunks of one multi-output result share one [start, end); no error.
 Known finding probed on every run: C09-ten-trials (component iter/ten-trials).
+Round 5: step 0 translator (`regen`): Generated/OverlapWindow.lean is regenerated from the AST of overlap_window_plugin.py
+(_get_window_size, the invalid_beyond / cache_inputs_beyond formulas, max_trials, initial sent_until) and Props/C09 proves every
+generated definition equal to the model's (`generated_*_eq_model`); `window/get-window-size` (exhaustive) and `iter/boundaries`
+(the prev_split arguments of cache_beyond, call by call) tie the same scalars to the running code.
 """
 from __future__ import annotations
 
@@ -33,6 +37,7 @@ np = sl.np
 ID = "C09"
 LEAN_MODULES = ["StraxModel.Props.C09"]
 TRUSTED = [
+    "translator (checks/props/c09.py:regen): AST of OverlapWindowPlugin._get_window_size (if isinstance(_, (int, float)) / elif isinstance(_, (list, tuple)) and len(_) == 2 / else; if, return, raise ValueError, <, or/and, subscripts 0/1), of the `invalid_beyond = int(..)` / `cache_inputs_beyond = int(..)` assignments of do_compute (+, -, *, integer literals, end, self.sent_until, window_size[i]; `int(..)` of an integer is the identity), of `max_trials` and of `self.sent_until = 0` -> Generated/OverlapWindow.lean; reading the three isinstance classes as the constructors of `WindowDecl` is tied by `window/get-window-size`",
     "the harness plugins' `compute` bodies (Python) and the driver's built-in computations (Lean) are tied by the `whole` correspondence; the generator's validity predicate and Lean `streamB` by `hypothesis`",
     "several dependencies: the aligned calls are taken as given (property C08 / Strax.Align); do_compute is driven call by call (`calls/two-kinds`), no theorem covers `runCalls`",
     "epoch-scale times (1.7e18 ns) are tied by re-running a sample of the small-grid cases shifted (`iter/epoch`, `context/epoch`); the theorems hold for all Int times",
@@ -45,6 +50,200 @@ ASSUMPTIONS = [
 ]
 
 DT = sl.DT_END
+
+
+# ----------------------------------------------------------------------------- step 0: translator
+# The scalar decisions of OverlapWindowPlugin are regenerated from the AST of /repo's current source into
+# lean/StraxModel/Generated/OverlapWindow.lean: `_get_window_size` (number -> (w, w); list / tuple of two -> sign check;
+# anything else -> ValueError), the two boundary formulas of `do_compute` (`invalid_beyond`, `cache_inputs_beyond`), the
+# class constant `max_trials` and the initial `sent_until`.  Props/C09.lean proves each equal to what Model/Overlap.lean
+# uses (`generated_*_eq_model`) and re-states the step invariant and the whole-run theorem over the generated definitions.
+
+class Untranslatable(Exception):
+    pass
+
+
+_GEN_HEADER = ("-- GENERATED by checks/props/c09.py:regen from /repo/strax/plugins/overlap_window_plugin.py "
+               "(_get_window_size, do_compute, max_trials, __init__). Do not edit.\n")
+
+
+def _tr_int(e, env):
+    """integer expression over the names of `env` -> Lean term of type Int"""
+    import ast
+    if isinstance(e, ast.Constant) and isinstance(e.value, int) and not isinstance(e.value, bool):
+        return str(e.value) if e.value >= 0 else f"({e.value})"
+    if isinstance(e, ast.Name) and isinstance(env.get(e.id), str):
+        return env[e.id]
+    if (isinstance(e, ast.Attribute) and isinstance(e.value, ast.Name) and e.value.id == "self"
+            and isinstance(env.get("self." + e.attr), str)):
+        return env["self." + e.attr]
+    if (isinstance(e, ast.Subscript) and isinstance(e.value, ast.Name) and isinstance(env.get(e.value.id), tuple)
+            and isinstance(e.slice, ast.Constant) and isinstance(e.slice.value, int) and not isinstance(e.slice.value, bool)
+            and 0 <= e.slice.value < len(env[e.value.id])):
+        return env[e.value.id][e.slice.value]
+    if isinstance(e, ast.UnaryOp) and isinstance(e.op, ast.USub):
+        return f"(-{_tr_int(e.operand, env)})"
+    if isinstance(e, ast.BinOp) and isinstance(e.op, (ast.Add, ast.Sub, ast.Mult)):
+        sym = {ast.Add: "+", ast.Sub: "-", ast.Mult: "*"}[type(e.op)]
+        return f"({_tr_int(e.left, env)} {sym} {_tr_int(e.right, env)})"
+    raise Untranslatable(ast.dump(e)[:80])
+
+
+def _tr_pair(e, env):
+    """what `_get_window_size` returns -> Lean term of type Int × Int"""
+    import ast
+    if isinstance(e, ast.Tuple) and len(e.elts) == 2:
+        return f"({_tr_int(e.elts[0], env)}, {_tr_int(e.elts[1], env)})"
+    if isinstance(e, ast.Name) and isinstance(env.get(e.id), tuple) and len(env[e.id]) == 2:
+        return f"({env[e.id][0]}, {env[e.id][1]})"
+    raise Untranslatable("return of " + ast.dump(e)[:60])
+
+
+def _tr_test(e, env):
+    import ast
+    if isinstance(e, ast.BoolOp):
+        op = " ∨ " if isinstance(e.op, ast.Or) else " ∧ "
+        return "(" + op.join(_tr_test(v, env) for v in e.values) + ")"
+    if isinstance(e, ast.Compare) and len(e.ops) == 1:
+        sym = {ast.Lt: "<", ast.LtE: "≤", ast.Gt: ">", ast.GtE: "≥", ast.Eq: "="}.get(type(e.ops[0]))
+        if sym:
+            return f"({_tr_int(e.left, env)} {sym} {_tr_int(e.comparators[0], env)})"
+    raise Untranslatable(ast.dump(e)[:80])
+
+
+def _tr_branch(stmts, env):
+    """body of one isinstance-branch of `_get_window_size` -> Lean term of type Except Err (Int × Int)"""
+    import ast
+    if not stmts:
+        raise Untranslatable("branch may fall off its end")
+    st, rest = stmts[0], stmts[1:]
+    if isinstance(st, ast.Return) and st.value is not None:
+        return f"pure {_tr_pair(st.value, env)}"
+    if isinstance(st, ast.Raise) and st.exc is not None:
+        exc = st.exc.func if isinstance(st.exc, ast.Call) else st.exc
+        if isinstance(exc, ast.Name) and exc.id == "ValueError":
+            return "throw Strax.Err.valueError"
+        raise Untranslatable("raise of something else than ValueError")
+    if isinstance(st, ast.If):
+        if not isinstance(st.body[-1], (ast.Return, ast.Raise)):
+            raise Untranslatable("if-body that falls through")
+        return f"if {_tr_test(st.test, env)} then ({_tr_branch(st.body, env)}) else ({_tr_branch(st.orelse + rest, env)})"
+    raise Untranslatable(type(st).__name__)
+
+
+def _isinstance_of(e, var):
+    """`isinstance(var, (T1, T2, ...))` -> sorted type names, else None"""
+    import ast
+    if (isinstance(e, ast.Call) and isinstance(e.func, ast.Name) and e.func.id == "isinstance" and len(e.args) == 2
+            and not e.keywords and isinstance(e.args[0], ast.Name) and e.args[0].id == var):
+        t = e.args[1]
+        elts = t.elts if isinstance(t, ast.Tuple) else [t]
+        if all(isinstance(x, ast.Name) for x in elts):
+            return sorted(x.id for x in elts)
+    return None
+
+
+def _tr_get_window_size(fn):
+    """`_get_window_size`: the three-way classification of what `get_window_size()` returned is the constructor of
+    `WindowDecl` (number / list or tuple of two / anything else); the tests must be literally these"""
+    import ast
+    body = [s for s in fn.body if not (isinstance(s, ast.Expr) and isinstance(s.value, ast.Constant))]
+    if len(body) != 2 or not (isinstance(body[0], ast.Assign) and len(body[0].targets) == 1
+                              and isinstance(body[0].targets[0], ast.Name)):
+        raise Untranslatable("_get_window_size: expected `x = self.get_window_size()` followed by one if-chain")
+    var = body[0].targets[0].id
+    call = body[0].value
+    if not (isinstance(call, ast.Call) and isinstance(call.func, ast.Attribute) and call.func.attr == "get_window_size"
+            and isinstance(call.func.value, ast.Name) and call.func.value.id == "self" and not call.args and not call.keywords):
+        raise Untranslatable("_get_window_size: first statement is not `self.get_window_size()`")
+    top = body[1]
+    if not (isinstance(top, ast.If) and len(top.orelse) == 1 and isinstance(top.orelse[0], ast.If) and top.orelse[0].orelse):
+        raise Untranslatable("_get_window_size: expected if / elif / else")
+    mid = top.orelse[0]
+    if _isinstance_of(top.test, var) != ["float", "int"]:
+        raise Untranslatable("_get_window_size: first test is not isinstance(_, (int, float))")
+    t = mid.test
+    ok = (isinstance(t, ast.BoolOp) and isinstance(t.op, ast.And) and len(t.values) == 2
+          and _isinstance_of(t.values[0], var) == ["list", "tuple"]
+          and isinstance(t.values[1], ast.Compare) and len(t.values[1].ops) == 1 and isinstance(t.values[1].ops[0], ast.Eq)
+          and isinstance(t.values[1].left, ast.Call) and isinstance(t.values[1].left.func, ast.Name)
+          and t.values[1].left.func.id == "len" and len(t.values[1].left.args) == 1
+          and isinstance(t.values[1].left.args[0], ast.Name) and t.values[1].left.args[0].id == var
+          and isinstance(t.values[1].comparators[0], ast.Constant) and t.values[1].comparators[0].value == 2)
+    if not ok:
+        raise Untranslatable("_get_window_size: second test is not isinstance(_, (list, tuple)) and len(_) == 2")
+    scalar = _tr_branch(top.body, {var: "w"})
+    pair = _tr_branch(mid.body, {var: ("w0", "w1")})
+    other = _tr_branch(mid.orelse, {})
+    return (f"def getWindowSize (window_size : Strax.Overlap.WindowDecl) : Except Strax.Err (Int × Int) :=\n"
+            f"  match window_size with\n"
+            f"  | .scalar w => {scalar}\n"
+            f"  | .pair w0 w1 => {pair}\n"
+            f"  | .other => {other}\n")
+
+
+def _assigned_int(fn, target, env):
+    """the unique `target = int(<expr>)` of a function body -> Lean Int term"""
+    import ast
+    hits = [n for n in ast.walk(fn) if isinstance(n, ast.Assign) and len(n.targets) == 1
+            and isinstance(n.targets[0], ast.Name) and n.targets[0].id == target]
+    if len(hits) != 1:
+        raise Untranslatable(f"{len(hits)} assignments to {target}")
+    v = hits[0].value
+    if not (isinstance(v, ast.Call) and isinstance(v.func, ast.Name) and v.func.id == "int" and len(v.args) == 1 and not v.keywords):
+        raise Untranslatable(f"{target} is not int(<expr>)")
+    return _tr_int(v.args[0], env)
+
+
+def _translate_overlap_window(src):
+    import ast
+    tree = ast.parse(src)
+    cls = next(n for n in tree.body if isinstance(n, ast.ClassDef) and n.name == "OverlapWindowPlugin")
+    fns = {n.name: n for n in cls.body if isinstance(n, ast.FunctionDef)}
+    parts = [_tr_get_window_size(fns["_get_window_size"])]
+    dc = fns["do_compute"]
+    # `end = ends[0]`: the common end of the (prepended) inputs; `window_size = self._get_window_size()`
+    env = {"end": "end_", "window_size": ("w0", "w1"), "self.sent_until": "sent_until"}
+    ws = [n for n in ast.walk(dc) if isinstance(n, ast.Assign) and len(n.targets) == 1
+          and isinstance(n.targets[0], ast.Name) and n.targets[0].id == "window_size"]
+    if not (len(ws) == 1 and isinstance(ws[0].value, ast.Call) and isinstance(ws[0].value.func, ast.Attribute)
+            and ws[0].value.func.attr == "_get_window_size" and not ws[0].value.args):
+        raise Untranslatable("do_compute: window_size is not self._get_window_size()")
+    parts.append("def invalidBeyond (end_ w0 w1 : Int) : Int :=\n  "
+                 + _assigned_int(dc, "invalid_beyond", {k: v for k, v in env.items() if k != "self.sent_until"}) + "\n")
+    parts.append("def cacheInputsBeyond (sent_until w0 w1 : Int) : Int :=\n  "
+                 + _assigned_int(dc, "cache_inputs_beyond", {k: v for k, v in env.items() if k != "end"}) + "\n")
+    mt = [n for n in cls.body if isinstance(n, ast.Assign) and len(n.targets) == 1
+          and isinstance(n.targets[0], ast.Name) and n.targets[0].id == "max_trials"]
+    if not (len(mt) == 1 and isinstance(mt[0].value, ast.Constant) and isinstance(mt[0].value.value, int)
+            and not isinstance(mt[0].value.value, bool) and mt[0].value.value >= 0):
+        raise Untranslatable("max_trials is not a literal natural number")
+    parts.append(f"def maxTrials : Nat := {mt[0].value.value}\n")
+    su = [n for n in ast.walk(fns["__init__"]) if isinstance(n, ast.Assign) and len(n.targets) == 1
+          and isinstance(n.targets[0], ast.Attribute) and n.targets[0].attr == "sent_until"]
+    if len(su) != 1:
+        raise Untranslatable("__init__: sent_until is not assigned exactly once")
+    parts.append(f"def sentUntilInit : Int := {_tr_int(su[0].value, {})}\n")
+    return (_GEN_HEADER + "import StraxModel.Model.Overlap\nset_option linter.unusedVariables false\nnamespace Strax.Generated.OverlapWindow\n"
+            + "".join(parts) + "end Strax.Generated.OverlapWindow\n")
+
+
+def regen(ctx):
+    """Regenerate Generated/OverlapWindow.lean from the current source of strax/plugins/overlap_window_plugin.py."""
+    from lib.engine import LEAN, REPO
+    out = LEAN / "StraxModel" / "Generated" / "OverlapWindow.lean"
+    try:
+        text = _translate_overlap_window((REPO / "strax" / "plugins" / "overlap_window_plugin.py").read_text())
+    except (Untranslatable, StopIteration, SyntaxError, KeyError, OSError) as e:
+        ctx.translator["overlap_window"] = f"untranslatable: {e}"
+        ctx.violation("translator:overlap_window", "translator", None, {"reason": str(e)},
+                      "translator regenerates Generated.OverlapWindow (getWindowSize, invalidBeyond, cacheInputsBeyond, "
+                      "maxTrials, sentUntilInit) from the source of OverlapWindowPlugin", False)
+        return
+    ctx.translator["overlap_window"] = "translated"
+    if not out.exists() or out.read_text() != text:
+        out.write_text(text)
+
 
 
 # ----------------------------------------------------------------------------- computations (Python side)
@@ -255,6 +454,81 @@ def op_iter(case):
     if len(comps) == 1:
         return f"c09.run {comps[0]} {wl} {wr} {cs}".rstrip()
     return f"c09.multi {','.join(comps)} {wl} {wr} {cs}".rstrip()
+
+
+# -- (d) round 5: `_get_window_size` alone, and the boundary times `do_compute` hands to `cache_beyond`
+def impl_getwin(case):
+    def f():
+        p = standalone(plugin_class(["ident"], 0, 0, decl=case["decl"]))
+        a, b = p._get_window_size()
+        if a != int(a) or b != int(b):
+            raise TypeError("non-integral window")
+        return f"{int(a)} {int(b)}"
+    return quiet(sl.guarded)(f)
+
+
+def op_getwin(case):
+    return f"c09.getwin {decl_token(case['decl'])}"
+
+
+def oracle_getwin(case, out):
+    """the docstring / error texts of `_get_window_size`: a number means the same window on both sides; two elements are
+    (look-back, look-ahead) and must be non-negative; anything else is refused"""
+    decl = case["decl"]
+    if decl[0] in ("s", "f"):
+        want = f"ok {int(decl[1])} {int(decl[1])}"
+    elif decl[0] in ("p", "l"):
+        want = "err ValueError" if (decl[1] < 0 or decl[2] < 0) else f"ok {decl[1]} {decl[2]}"
+    else:
+        want = "err ValueError"
+    return None if out == want else f"_get_window_size on {decl}: got `{out}`, the documented answer is `{want}`"
+
+
+def impl_bounds(case):
+    """a REAL multi-output plugin whose `cache_beyond` records its `prev_split` argument: per `do_compute` call first
+    `invalid_beyond` (results), then `cache_inputs_beyond` (inputs)"""
+    comps, wl, wr = case["comps"], case["wl"], case["wr"]
+
+    def f():
+        chunks = [real_chunk(c) for c in case["chunks"]]
+        base = plugin_class(comps, wl, wr)
+        trace = []
+
+        def cache_beyond(self, io, prev_split, cached):
+            trace.append(int(prev_split))
+            return base.cache_beyond(self, io, prev_split, cached)
+        p = standalone(type("OverlapSpy", (base,), {"cache_beyond": cache_beyond}))
+        n = sum(1 for _ in p.iter({"d0": iter(chunks)}))
+        if len(trace) != 2 * (n - 1):
+            raise AssertionError("cache_beyond not called twice per do_compute")
+        return " ".join(f"{trace[i]}:{trace[i + 1]}" for i in range(0, len(trace), 2)) or "-"
+    return quiet(sl.guarded)(f)
+
+
+def op_bounds(case):
+    cs = " ".join(show_raw(c) for c in case["chunks"])
+    return f"c09.bounds {','.join(case['comps'])} {case['wl']} {case['wr']} {cs}".rstrip()
+
+
+def oracle_bounds(case, out):
+    """what the property needs of the two times (not the exact formulas): results are only released up to a time at
+    least the look-ahead before the end of the data seen, and inputs are only dropped at least the look-back before
+    the latest time results may have been released up to"""
+    if not case.get("valid") or out.startswith("err") or out == "ok -":
+        return None
+    pairs = [tuple(int(x) for x in tok.split(":")) for tok in out[3:].split()]
+    ends = [c[1] for c in case["chunks"]]
+    s0 = case["chunks"][0][0]
+    if len(pairs) != len(ends):
+        return f"{len(pairs)} do_compute calls for {len(ends)} chunks"
+    for (ib, cb), e in zip(pairs, ends):
+        if ib > e - case["wr"]:
+            return f"invalid_beyond {ib} is closer than the look-ahead {case['wr']} to the end {e} of the inputs"
+        # `sent_until` never exceeds max(invalid_beyond, start of the run): results are split at invalid_beyond or earlier,
+        # and a split time before the start of the chunk is clamped to that start
+        if cb > max(ib, s0) - case["wl"]:
+            return f"cache_inputs_beyond {cb} is closer than the look-back {case['wl']} to what may have been sent (invalid_beyond {ib}, run start {s0})"
+    return None
 
 
 # -- (b) through Context.get_iter
@@ -768,6 +1042,31 @@ def run(ctx):
     ctx.correspond("context/window-forms", [c for c in wcases if "proc" in c], impl_ctx, op_iter, oracle_run, nontrivial=nontrivial,
                    rule="the legal forms through Context.get_iter (both processors)",
                    branch=lambda c, o: c["decl"][0] + ":" + c["proc"] + ":" + ("err" if o.startswith("err") else "ok"))
+
+    # 7d. round 5: `_get_window_size` alone (exhaustive small scope; tied to `windowResult`, which Props/C09 proves equal to
+    #     the definition regenerated from the source), and the two boundary times of every `do_compute` call
+    gcases = ([dict(decl=["s", w]) for w in range(-4, 14)] + [dict(decl=["f", w]) for w in range(-2, 6)]
+              + [dict(decl=[form, a, b]) for form in ("p", "l") for a in range(-2, 7) for b in range(-2, 7)]
+              + [dict(decl=["np", w]) for w in (0, 3)] + [dict(decl=["t3"])])
+    ctx.correspond("window/get-window-size", gcases, impl_getwin, op_getwin, oracle_getwin, nontrivial=lambda c, o: True,
+                   exhaustive=True,
+                   rule="_get_window_size on every declaration: numbers -4..13, floats -2..5, tuples and lists of two over -2..6 squared, np.int64, a 3-tuple",
+                   branch=lambda c, o: c["decl"][0] + ":" + ("err" if o.startswith("err") else "ok"))
+    bcases = []
+    for _ in range(ctx.pick(500, 4000)):
+        rows, chunks = run_case(rng, n=rng.randint(1, 12))
+        wl, wr = rand_window(rng)
+        comps = [pick_comp(rng, wl, wr, groups=rng.random() < 0.3) for _ in range(2)]
+        bcases.append(dict(comps=comps, wl=wl, wr=wr, chunks=chunks, valid=True))
+    # the spy reads internals (the arguments of cache_beyond): if a refactoring made them unobservable the component is
+    # skipped rather than reported (the outputs stay tied by every other component)
+    probe = impl_bounds(dict(comps=["count", "sum"], wl=1, wr=1, chunks=[[0, 4, [[0, 2, 0]]], [4, 9, [[5, 6, 1]]]]))
+    if probe.startswith("err AssertionError") or probe.startswith("err TypeError"):
+        bcases = []
+    ctx.correspond("iter/boundaries", bcases, impl_bounds, op_bounds, oracle_bounds, nontrivial=nontrivial,
+                   rule="two-output plugins whose cache_beyond records its prev_split argument: (invalid_beyond, cache_inputs_beyond) of every do_compute call against the model's invalidBeyond / cacheInputsBeyond",
+                   branch=lambda c, o: ("err" if o.startswith("err") else f"calls={min(len(o.split()) - 1, 6)}"))
+
 
     # 8. corpus: hand-picked shapes that every run must see
     corpus = [
